@@ -284,51 +284,36 @@ func VerifC28NumExact() {
 // ------------------------------------------------------------------------------------------
 // numbers: hashing and member lookup (bv mode; decimals are built directly, FromInt is not run)
 
-func v28numHash(wide bool) {
+func v28numHash() {
 	var x Value
-	var n int
 	if rt.Pick("x.kind", 2) == 0 {
-		n = int(rt.I16("x.n"))
-		x = SuInt(n)
+		x = SuInt(int(rt.I16("x.n")))
 	} else {
-		n = rt.Int("x.n")
-		x = SuInt64{int64: int64(n)}
+		x = SuInt64{int64: rt.I64("x.n")}
 	}
-	small := MinSuInt <= n && n <= MaxSuInt
 	var y Value
-	yk := rt.Pick("y.kind", 4)
-	switch yk {
+	switch rt.Pick("y.kind", 4) {
 	case 0:
-		m := int(rt.I16("y.n"))
-		y = SuInt(m)
+		y = SuInt(int(rt.I16("y.n")))
 	case 1:
 		y = SuInt64{int64: rt.I64("y.n")}
 	case 2:
+		// every normalized decimal whose value is a non-zero integer of the int16 range:
+		// mag (e digits) x 10^(16-e), exponent e
 		sign := int8(1)
 		if rt.Bool("y.neg") {
 			sign = -1
 		}
-		if wide {
-			coef := rt.U64Range("y.coef", v28coefMin, v28coefMax)
-			exp := rt.Pick("y.exp", 19) + 1
-			y = SuDnum{Dnum: dnum.Raw(sign, coef, exp)}
-		} else {
-			// every normalized decimal whose value is a non-zero integer of the int16 range:
-			// mag (e digits) x 10^(16-e), exponent e
-			mag := rt.U16("y.mag")
-			e := rt.Pick("y.digits", 5) + 1
-			lo, pow := uint16(1), uint64(v28coefMin)
-			for i := 1; i < e; i++ {
-				lo, pow = lo*10, pow/10
-			}
-			rt.Assume(lo <= mag && (e == 5 || mag < lo*10) && mag <= 32768 && (sign < 0 || mag <= 32767))
-			y = SuDnum{Dnum: dnum.Raw(sign, uint64(mag)*pow, e)}
+		mag := rt.U16("y.mag")
+		e := rt.Pick("y.digits", 5) + 1
+		lo, pow := uint16(1), uint64(v28coefMin)
+		for i := 1; i < e; i++ {
+			lo, pow = lo*10, pow/10
 		}
+		rt.Assume(lo <= mag && (e == 5 || mag < lo*10) && mag <= 32768 && (sign < 0 || mag <= 32767))
+		y = SuDnum{Dnum: dnum.Raw(sign, uint64(mag)*pow, e)}
 	case 3:
 		y = SuDnum{Dnum: dnum.Zero}
-	}
-	if wide {
-		rt.Assume(yk == 2 && !small)
 	}
 	// x is an integer: its Equal is exact for every kind of y
 	eq := x.Equal(y)
@@ -337,12 +322,42 @@ func v28numHash(wide bool) {
 		return
 	}
 	rt.Reach("equal-pair")
-	if !wide || rt.Pick("check", 2) == 0 {
+	rt.Assert("hash/equal-numbers-same-hash", x.Hash() == y.Hash() && x.Hash2() == y.Hash2())
+}
+
+func v28numHashWide() {
+	var x, y Value
+	how := rt.Pick("how", 2)
+	if how == 0 {
+		// any SuInt64 outside the small-int range against any decimal with exponent 16..19
+		n := rt.I64("x.n")
+		rt.Assume(n < MinSuInt || n > MaxSuInt)
+		x = SuInt64{int64: n}
+		sign := int8(1)
+		if rt.Bool("y.neg") {
+			sign = -1
+		}
+		coef := rt.U64Range("y.coef", v28coefMin, v28coefMax)
+		y = SuDnum{Dnum: dnum.Raw(sign, coef, rt.Pick("y.exp", 4)+16)}
+	} else {
+		// enumerated integers just outside the small-int range and up
+		ns := []int64{32768, -32769, 100000, -1000000, 123456789}
+		n := ns[rt.Pick("n", len(ns))]
+		x, y = SuInt64{int64: n}, SuDnum{Dnum: dnum.FromInt(n)}
+	}
+	eq := x.Equal(y)
+	rt.Observe("eq", eq)
+	if !eq {
+		return
+	}
+	rt.Reach("equal-pair")
+	if how == 0 || rt.Pick("check", 2) == 0 {
 		rt.Assert("hash/equal-numbers-same-hash", x.Hash() == y.Hash() && x.Hash2() == y.Hash2())
+		return
 	}
-	if wide {
-		v28lookup("member/number-found-under-equal-key", x, y)
-	}
+	// (member lookup for the enumerated integers only: with a symbolic 64-bit hash the slot
+	// search costs hundreds of multiplier queries)
+	v28lookup("member/number-found-under-equal-key", x, y)
 }
 
 // v28lookup: a member stored under x is found under y and vice versa
@@ -388,14 +403,14 @@ func VerifC28NumLookup() {
 //
 //symgo:harness prop=C28 tier=quick arith=int shards=4 timeout=300 bounds=x:any_small_int_or_any_SuInt64;y:small_int|SuInt64|decimal_zero|every_normalized_decimal_holding_a_non-zero_integer_of_the_int16_range outside=decimal_against_an_integer_outside_int16_(VerifC28NumHashWide)
 func VerifC28NumHash() {
-	v28numHash(false)
+	v28numHash()
 }
 
 // C28 numbers: a SuInt64 outside the int16 range against the Equal decimal.
 //
-//symgo:harness prop=C28 tier=quick shards=4 timeout=300 bounds=x:SuInt64_outside_int16;y:any_finite_16-digit_decimal_with_exponent_1..19
+//symgo:harness prop=C28 tier=quick shards=4 timeout=300 bounds=x:SuInt64_outside_int16;y:any_finite_16-digit_decimal_with_exponent_16..19,or_the_decimal_of_n_in_{32768,-32769,100000,-1000000,123456789}
 func VerifC28NumHashWide() {
-	v28numHash(true)
+	v28numHashWide()
 }
 
 // ------------------------------------------------------------------------------------------
@@ -441,7 +456,7 @@ func v28val(tag string, kind, maxLen int) (Value, v28m) {
 		}
 		return SuBool(b), m
 	case v28Smi:
-		m.rank, m.n = 1, int(rt.I16(tag+".n"))
+		m.rank, m.n = 1, rt.IntRange(tag+".n", MinSuInt, MaxSuInt)
 		return SuInt(m.n), m
 	case v28I64:
 		m.rank, m.n = 1, rt.Int(tag+".n")
@@ -453,7 +468,7 @@ func v28val(tag string, kind, maxLen int) (Value, v28m) {
 			sign = -1
 		}
 		coef := rt.U64Range(tag+".coef", v28coefMin, v28coefMax)
-		exp := int(rt.I8(tag + ".exp"))
+		exp := rt.IntRange(tag+".exp", -128, 127)
 		// (exponents 1..15 make Hash divide the coefficient, which the bit-vector solver does
 		// not get through; those decimals are covered by the int-mode numeric harnesses)
 		rt.Assume(exp <= 0 || exp >= 16)
@@ -480,7 +495,7 @@ func v28val(tag string, kind, maxLen int) (Value, v28m) {
 	ob := &SuObject{}
 	m.n = rt.Pick(tag+".len", 2)
 	for i := 0; i < m.n; i++ {
-		e := int(rt.I8(tag + ".e"))
+		e := rt.IntRange(tag+".e", -128, 127)
 		m.e = append(m.e, e)
 		ob.Add(SuInt(e))
 	}
@@ -549,6 +564,9 @@ func v28pair(a, b Value, ma, mb v28m) {
 	rt.Observe("eab", eab)
 	rt.Observe("eba", eba)
 	rt.Assert("equal/symmetric", eab == eba)
+	if eab {
+		rt.Reach("equal-pair") // (decided here, so that the equations are part of the path condition)
+	}
 	cab, cba := a.Compare(b), b.Compare(a)
 	rt.Reach("compared")
 	rt.Observe("cab", cab)
@@ -565,7 +583,6 @@ func v28pair(a, b Value, ma, mb v28m) {
 	if !eab {
 		return
 	}
-	rt.Reach("equal-pair")
 	rt.Assert("equal/implies-compare-0", cab == 0)
 	rt.Assert("hash/equal-values-same-hash", a.Hash() == b.Hash())
 	rt.Assert("hash/equal-values-same-hash2", a.Hash2() == b.Hash2())
@@ -638,12 +655,12 @@ func v28object(tag string, maxL int, keys []int) (Value, v28obm) {
 	}
 	n := rt.Pick(tag+".len", maxL+1)
 	for i := 0; i < n; i++ {
-		e := int(rt.I8(tag + ".e"))
+		e := rt.IntRange(tag+".e", -128, 127)
 		m.list = append(m.list, e)
 		c.Add(SuInt(e))
 	}
 	for _, k := range keys {
-		v := int(rt.I8(tag + ".v"))
+		v := rt.IntRange(tag+".v", -128, 127)
 		m.nk, m.nv = append(m.nk, k), append(m.nv, v)
 		c.Put(nil, SuInt(k), SuInt(v))
 	}
@@ -702,25 +719,16 @@ func v28obPair(a, b Value, ma, mb v28obm) {
 // C28 objects: pairs of objects/records with list members and at most one named member, or two
 // named members inserted in the same order.
 //
-//symgo:harness prop=C28 tier=quick shards=8 timeout=300 bounds=pairs_of_object|record_with_0..2_small-int_list_members_and_named_members_from_{none,{-1},{5},{-1,5}_inserted_in_this_order};values_any_int8 outside=named_members_inserted_in_different_orders_(VerifC28ObjectHashOrder);nested_objects
+//symgo:harness prop=C28 tier=quick shards=8 timeout=300 ttimeout=1700 bounds=pairs_of_object|record_with_0..1_(thorough_0..2)_small-int_list_members_and_named_members_from_{none,{-1},{5},{-1,5}_inserted_in_this_order};values_-128..127 outside=named_members_inserted_in_different_orders_(VerifC28ObjectHashOrder);nested_objects
 func VerifC28Objects() {
-	sets := [][]int{nil, {-1}, {5}, {-1, 5}}
-	a, ma := v28object("a", 2, sets[rt.Pick("a.named", len(sets))])
-	b, mb := v28object("b", 2, sets[rt.Pick("b.named", len(sets))])
-	v28obPair(a, b, ma, mb)
-	// objects sort after every other class
-	var o Value
-	switch rt.Pick("other", 4) {
-	case 0:
-		o = SuBool(rt.Bool("o.b"))
-	case 1:
-		o = SuInt64{int64: rt.I64("o.n")}
-	case 2:
-		o = SuStr(rt.Str("o.s", 1))
-	case 3:
-		o = SuDate{date: rt.U32("o.d"), time: rt.U32("o.t")}
+	maxL := 1
+	if rt.Thorough() {
+		maxL = 2
 	}
-	rt.Assert("object/after-other-classes", a.Compare(o) > 0 && o.Compare(a) < 0 && !a.Equal(o) && !o.Equal(a))
+	sets := [][]int{nil, {-1}, {5}, {-1, 5}}
+	a, ma := v28object("a", maxL, sets[rt.Pick("a.named", len(sets))])
+	b, mb := v28object("b", maxL, sets[rt.Pick("b.named", len(sets))])
+	v28obPair(a, b, ma, mb)
 }
 
 // C28 objects: the same two named members inserted in opposite orders.
